@@ -303,6 +303,8 @@ def pool_obs(o):
 
 def pred_script(c, o):
     bad = []
+    if not o.get("sid_ok", True):
+        bad.append({"failed": "session ids: the two ends of a session disagree, or two sessions share an id (H-SID fails on the real noise sessions)"})
     for i, (v, s) in enumerate(zip(c["sessions"], o["sessions"])):
         spec = next((sp for (j, sp) in c["sends"] if j == i), None)
         r, d, em = s["res"], s["delivered"], s["em"]
@@ -522,7 +524,7 @@ def run(rep):
         raise common.MachineryError("cargo build failed: " + out[-2000:])
     glue = extract_glue()
 
-    n_script, n_pair, n_pool, n_poolc = (700, 120, 300, 24) if tier == "quick" else (12000, 1500, 5000, 300)
+    n_script, n_pair, n_pool, n_poolc = (1000, 150, 400, 30) if tier == "quick" else (25000, 3000, 10000, 500)
     hs_cases = corpus_cases()
     g1, g2, g3, g4 = rng.fork(), rng.fork(), rng.fork(), rng.fork()
     hs_cases += [gen_script(g1) for _ in range(n_script)]
